@@ -10,6 +10,8 @@
        busy : "idle" | "running" | "queued"             state when the end begins: all tasks done / every worker inside
                                                         a task / additionally tasks waiting in the call queue
        end  : how it ends (Ends below)
+       sig  : for end = "crash", the signal that kills one worker ("KILL" | "TERM" | "SEGV" | "RT": a real-time signal, which has
+              no name in signal.Signals); "none" otherwise
    and goes through  Create -> Load -> End -> Join -> Release, each step acquiring or releasing the resources the code
    acquires or releases there (process_executor.py: __init__/_start_executor_manager_thread, kill_workers /
    shutdown_workers, join_executor_internals).
@@ -29,16 +31,18 @@ Loads == {"small", "bigarg", "bigres", "nested"}
 Busys == {"idle", "running", "queued"}
 Ends  == {"wait", "ctx", "nowait", "kill", "crash", "timeout", "cancel", "resize", "replace_kill"}
 Killing == {"kill", "crash", "replace_kill"}          \* ends in which workers die without reading the call queue
+Sigs  == {"KILL", "TERM", "SEGV", "RT"}
 
 Valid(l) == /\ (l.end = "timeout" => l.busy = "idle")
             /\ (l.end = "cancel" => l.busy = "queued")
             /\ (l.end = "resize" => l.pool = "reusable" /\ l.busy = "idle")
             /\ (l.end = "replace_kill" => l.pool = "reusable")
-Lives == {l \in [pool : Pools, load : Loads, busy : Busys, end : Ends] : Valid(l)}
+            /\ (l.end = "crash" <=> l.sig # "none")
+Lives == {l \in [pool : Pools, load : Loads, busy : Busys, end : Ends, sig : Sigs \cup {"none"}] : Valid(l)}
 
 VARIABLES hist, phase, cur, ledger, feederBlocked
 vars == <<hist, phase, cur, ledger, feederBlocked>>
-NoLife == [pool |-> "none", load |-> "none", busy |-> "none", end |-> "none"]
+NoLife == [pool |-> "none", load |-> "none", busy |-> "none", end |-> "none", sig |-> "none"]
 
 Init == hist = <<>> /\ phase = "idle" /\ cur = NoLife /\ ledger = {} /\ feederBlocked = FALSE
 
